@@ -407,7 +407,7 @@ def partitions(tier):
                           'budget_s': 160 if tier == 'quick' else 850,
                           'bounds': {'len': L, 'width': '0..6 (symbolic)'}})
     for mode in MODES:
-        for k, ch in enumerate(_chunks(_tree_forests(tier), 8)):
+        for k, ch in enumerate(_chunks(_tree_forests(tier), 8 if tier == 'quick' else 36)):
             parts.append({'name': f'tree_{mode}_{k}',
                           'fn': make_tree(ch, mode), 'setup': _setup,
                           'budget_s': 160 if tier == 'quick' else 850,
@@ -432,7 +432,7 @@ def replay(part, cex):
         import os
         _, mode, k = part.split('_')
         tier = os.environ.get('VERIF_TIER_REPLAY', 'quick')
-        forest = _chunks(_tree_forests(tier), 8)[int(k)][cex['i']]
+        forest = _chunks(_tree_forests(tier), 8 if tier == 'quick' else 36)[int(k)][cex['i']]
         from vlib import trees as T
         n = sum(T.count_leaves(sh) for sh in forest)
         try:
